@@ -23,7 +23,7 @@ PROP = "C06"
 MANIFEST = dict(
     level="model_checking", design_ref="DESIGN.md 8 (C06), 7 (Tween)",
     technique="TLA+ model of kira::Parameter (TLC, exact rational easings over integer time) + TLC-generated set/update behaviours (bounded exhaustive and seeded random walks) replayed on the real public Parameter<T> for ten Tweenable types + seeded random histories + TLC trace validation against the property-level monitor P_C06",
-    text="TLC explores every sequence of set() calls (immediate, delayed, clock start; durations including zero and shorter than one update; linear and integer-power easings) and every partition of time into updates for small constants against the property-level monitor (old value until the start, reference curve within the start-time quantisation slack, exact target and finish flag at the end, interval, monotone approach, previous value = last value, zero duration at the next update, retarget from the current value) and structural invariants; TLC-generated behaviours and seeded random histories are executed on the real kira::Parameter<T> (f64, f32, Decibels, Panning, Mix, PlaybackRate, Semitones, Duration, ClockSpeed, Vec3) and every recorded session is validated by TLC against P_C06. Exhaustive for small grids/bounds, sampled beyond.",
+    text="TLC explores every sequence of set() calls (immediate, delayed, clock start; durations including zero and shorter than one update; linear and integer-power easings) and every partition of time into updates for small constants against the property-level monitor (old value until the start, reference curve within the start-time quantisation slack, exact target and finish flag at the end, interval, monotone approach, previous value = last value, zero duration at the next update, retarget from the current value) and structural invariants; TLC-generated behaviours and seeded random histories are executed on the real kira::Parameter<T> (f64, f32, Decibels, Panning, Mix, PlaybackRate, Semitones, Duration, ClockSpeed, Vec3) and every recorded session is validated by TLC against P_C06. In situ, one linear decibel tween of every volume parameter and pause/resume fade inside the audio graph (track, send track, route, main track, sound) is observed frame by frame at the output for internal buffers 4/16, five callback patterns and durations 0-64 frames, with the owning track paused meanwhile or not, and judged by TLC against the reference curve 'to within one update' (P_C06I). Exhaustive for small grids/bounds, sampled beyond.",
     note="Values are exact dyadic rationals in the TLC-generated sessions (bit-exact comparison) and rounded to 1/4096 with tolerance 3 in the random sessions; real-power easings are only checked for end points, interval and direction; Quat (slerp) is not covered. The tweener modulator duplicates Parameter's logic and is not driven separately. Parameters linked to modulators (Value::FromModulator) are out of scope. A clock that pauses, is reset or disappears after a clock-started tween began is treated as a finding candidate (findings/C06-clock), not generated at property level unless listed in known_findings.json.")
 
 TYPES = ["f64", "f32", "db", "pan", "mix", "rate", "semi", "dur", "cspeed", "vec3"]
@@ -288,7 +288,22 @@ def run(tier):
             log("FINDING-CANDIDATE property=%s clock pause/reset/removal freezes a clock-started tween: %d of %d "
                 "sessions rejected by P_C06 (not listed in known_findings.json; see findings/C06-clock)"
                 % (PROP, len(fbad), len(fscen)))
-    res.evaluations = len(scen)
+    # ---- in situ: the tweens of the parameters inside the audio graph take the time they are given, whatever the
+    # callback size, and whether or not the owning track is paused meanwhile (Gen_InSitu.tla / P_C06I.tla / c06i driver)
+    icfg = os.path.join(OUT, "cfg", "Gen_InSitu.cfg")
+    open(icfg, "w").write("SPECIFICATION Spec\nINVARIANT Dump\nCHECK_DEADLOCK FALSE\n")
+    iscen = [dict(b[0], src="tlc-product") for b in tlc_generate("Gen_InSitu.tla", icfg, "bfs", timeout=600, tag="c06i")]
+    if tier == "quick":
+        iscen = [x for k, x in enumerate(sorted(iscen, key=lambda x: json.dumps(x, sort_keys=True))) if k % 3 == seed() % 3]
+    isp, itp = os.path.join(d, "insitu_scen.ndjson"), os.path.join(d, "insitu_trace.ndjson")
+    write_ndjson(isp, iscen)
+    run_kv("c06i", isp, itp)
+    ibad, _ = tlc_validate("T_C06I.tla", os.path.join(SPEC, "T_C06I.cfg"), itp, timeout=3000, tag="c06itv")
+    judge(res, PROP, iscen, itp, ibad[:200])
+    res.notes["in_situ_sessions"] = len(iscen)
+    res.evaluations = len(scen) + len(iscen)
+    for sc in iscen:
+        res.distinct.add(behaviour_hash(sc))
     for sc in scen:
         if any(s["a"] == "set" for s in sc["steps"]):
             res.distinct.add(behaviour_hash([sc["ty"], sc["mode"], sc["v0"],
